@@ -256,7 +256,7 @@ class Unit(object):
         if res is None:
             return 'failed'
         der = res[0].ravel()
-        flat = x.ravel()
+        flat = np.asarray(x, dtype=float).ravel()
         mism = np.zeros(flat.size, dtype=bool)
         for u in set(flat.tolist()):
             r = refs.get(u)
@@ -327,6 +327,18 @@ class Unit(object):
             out = self.check_array(shape, x, refs, 'mixed', dict(r=r), range(size))
             acc.case((self.fname, self.method, self.n, self.order, shape, 'mixed', r), nontrivial=True,
                      cell=base_cells + ['pattern/mixed'], outcome=out, n_eval=0)
+            # the same logical array handed over in another memory layout / container / dtype: "the element at
+            # that position" is a statement about logical positions, so every element must still be bit-identical
+            # to its per-position reference
+            for lname, xl in layouts_of(x):
+                out = self.check_array(shape, xl, refs, 'layout', dict(r=r, layout=lname), range(size))
+                acc.case((self.fname, self.method, self.n, self.order, shape, 'layout', lname, r), nontrivial=True,
+                         cell=base_cells + ['layout/' + lname], outcome=out, n_eval=0)
+
+            xi = np.array([INT_VALUED[(i + r) % len(INT_VALUED)] for i in range(size)], dtype=np.int64).reshape(shape)
+            out = self.check_array(shape, xi, refs, 'layout', dict(r=r, layout='integer-dtype'), range(size))
+            acc.case((self.fname, self.method, self.n, self.order, shape, 'layout', 'integer-dtype', r), nontrivial=True,
+                     cell=base_cells + ['layout/integer-dtype'], outcome=out, n_eval=0)
 
     # -- *args / **kwds
     def run_args(self, shape):
@@ -376,6 +388,23 @@ def positions_for(shape, quick, seed):
     return sorted(set([rot[0], rot[step], rot[2 * step]]))
 
 
+INT_VALUED = [11.0, 0.0, 150.0, -5.0]
+
+
+def layouts_of(x):
+    """[(name, array-like)]: the same logical array in other layouts (never C-contiguous float64 itself)."""
+    out = []
+    if x.ndim >= 2:
+        out.append(('fortran', np.asfortranarray(x)))
+        out.append(('transposed-view', np.ascontiguousarray(x.T).T))
+    big = np.zeros(x.shape[:-1] + (2 * x.shape[-1],), dtype=float)
+    big[..., ::2] = x
+    out.append(('strided-view', big[..., ::2]))
+    out.append(('reversed-view', np.ascontiguousarray(x[::-1])[::-1]))
+    out.append(('nested-list', x.tolist()))
+    return out
+
+
 ANCHORS = [2.5, 11.0, 0.3, 150.0]
 
 
@@ -422,6 +451,7 @@ def run(ctx):
     req += ['args/%s' % m for m in METHODS] + ['pattern/mixed', 'position/first', 'position/last',
                                                'position/inner']
     req += ['neighbours/real-step/%s' % c for c in ('finite', 'partial-nan', 'all-nan')]
+    req += ['layout/' + l for l in ('fortran', 'transposed-view', 'strided-view', 'reversed-view', 'nested-list', 'integer-dtype')]
     req += ['neighbours/%s/finite' % m for m in ('complex', 'multicomplex')]
     rule = ('%d shapes x 6 exactly-rounded elementwise functions x %d (method, n, order) configurations (5 methods, '
             'n <= 4, multicomplex n <= 2, order in {1,2,3,4,6}); value pool of 10 (incl. 0, -5, 1e-9, 150).  For '
@@ -471,9 +501,16 @@ def replay(case):
                 size = int(np.prod(shape))
                 x = np.array([POOL[(i + case['r']) % len(POOL)] for i in range(size)], dtype=float).reshape(shape)
                 sub = dict(r=case['r'])
+                if kind == 'layout':
+                    sub['layout'] = case['layout']
+                    if case['layout'] == 'integer-dtype':
+                        x = np.array([INT_VALUED[(i + case['r']) % len(INT_VALUED)] for i in range(size)],
+                                     dtype=np.int64).reshape(shape)
+                    else:
+                        x = dict(layouts_of(x))[case['layout']]
             refs = {}
-            for val in sorted(set(x.ravel().tolist())):
+            for val in sorted(set(np.asarray(x, dtype=float).ravel().tolist())):
                 refs[val] = u.lib(np.full(shape, val, dtype=float), 'constant', dict(shape=list(shape), t=val))
-            u.check_array(shape, x, refs, kind, sub, range(x.size))
+            u.check_array(shape, x, refs, kind, sub, range(int(np.prod(shape)) if shape else 1))
     bad = ['%s :: %s' % (k, r['detail']) for k, (n, recs) in sorted(acc.viol.items()) for r in recs[:1]]
     return not bad, 'case=%r -> %s' % (case, bad or 'ok: shape kept, all elements bit-identical to their references')
